@@ -131,6 +131,10 @@ func main() {
 	}
 	mkBlock := func(name, rname string, mk func() render.Render3, bb sdf.Box3, neutral float64, first int) *blk {
 		l, err := lattice.Discover3(mk(), bb, neutral)
+		if ce, ok := err.(*lattice.CoverageError); ok {
+			c.Violation(rname+"|sampled-volume-does-not-cover-bounding-box|cell-never-visited", ce.Msg, map[string]any{"renderer": rname, "unvisited_corner": ce.Corner})
+			return nil
+		}
 		if err != nil {
 			c.HarnessError("discover %s: %v", name, err)
 			return nil
@@ -261,6 +265,10 @@ func main() {
 			neutral = 0
 		}
 		l, err := lattice.Discover3(j.r.mk(j.pc.n), j.pc.bb, neutral)
+		if ce, ok := err.(*lattice.CoverageError); ok {
+			c.Violation(j.r.name+"|sampled-volume-does-not-cover-bounding-box|cell-never-visited", ce.Msg, map[string]any{"renderer": j.r.name, "unvisited_corner": ce.Corner})
+			return
+		}
 		if err != nil {
 			c.HarnessError("discover %s %s: %v", j.pc.name, j.r.name, err)
 			return
@@ -427,6 +435,10 @@ func main() {
 			neutral = 0
 		}
 		l, err := lattice.Discover3(j.r.mk(j.n), j.bb, neutral)
+		if ce, ok := err.(*lattice.CoverageError); ok {
+			c.Violation(j.r.name+"|sampled-volume-does-not-cover-bounding-box|cell-never-visited", ce.Msg, map[string]any{"renderer": j.r.name, "unvisited_corner": ce.Corner})
+			return
+		}
 		if err != nil {
 			c.HarnessError("discover (%s, n=%d, %s): %v", j.name, j.n, j.r.name, err)
 			return
